@@ -16,6 +16,10 @@ if a.copy:
     import shutil
     REPO = "/var/tmp/seedrepo.%s.%d" % (a.sid, os.getpid())
     subprocess.run(["rsync", "-a", "--exclude", ".git", "--exclude", "*.o", "--exclude", "*.lo", "--exclude", ".libs", "/repo/", REPO + "/"], check=True)
+    # /repo's working tree may hold another seeded patch at this moment (seedall running): every tracked file comes from HEAD, only the
+    # build products (config.h, generated headers) are taken from the working tree
+    ar = subprocess.run(["git", "-C", "/repo", "archive", "HEAD"], capture_output=True, check=True)
+    subprocess.run(["tar", "-x", "-C", REPO], input=ar.stdout, check=True)
     os.environ["XCV_REPO"] = REPO
 def git(*x): return subprocess.run(["git", "-C", REPO] + list(x), capture_output=True, text=True)
 if not a.copy:
